@@ -25,13 +25,13 @@ def sweep(ctx, bin_path, label, wd, violations, per_prop, samples):
         if not ops:
             continue
         out_path = os.path.join(wd, f"{pid}.{label}.out")
-        rc, err, hook = _sweep.run_impl(ctx, pid, ops_path, out_path, {}, bin_path)
+        rc, err, hook = _sweep.run_impl(ctx, pid, ops_path, out_path, {}, ctx["bin_for"](pid, bin_path == "release"))
         answers = open(out_path, encoding="utf-8", errors="replace").read().split("\n")
         if answers and answers[-1] == "":
             answers.pop()
         bad = None
         if rc != 0 or len(answers) != len(ops):
-            rc2, err2, _ = _sweep.run_impl(ctx, pid, ops_path, out_path, {"EMLV_FLUSH": "1"}, bin_path)
+            rc2, err2, _ = _sweep.run_impl(ctx, pid, ops_path, out_path, {"EMLV_FLUSH": "1"}, ctx["bin_for"](pid, bin_path == "release"))
             answers = open(out_path, encoding="utf-8", errors="replace").read().split("\n")
             if answers and answers[-1] == "":
                 answers.pop()
@@ -70,10 +70,9 @@ def sweep(ctx, bin_path, label, wd, violations, per_prop, samples):
 def run(ctx):
     violations, samples, per_prop = [], [], {}
     wd = os.path.join(ctx["work"], "sweep")
-    n_ops, n_checked, programs = sweep(ctx, ctx["bin"], "dev", wd, violations, per_prop, samples)
+    n_ops, n_checked, programs = sweep(ctx, "dev", "dev", wd, violations, per_prop, samples)
     if ctx["tier"] == "thorough":
-        rel = ctx["build_harness"](release=True)
-        o2, c2, p2 = sweep(ctx, rel, "release", wd, violations, per_prop, samples)
+        o2, c2, p2 = sweep(ctx, "release", "release", wd, violations, per_prop, samples)
         n_ops += o2
         n_checked += c2
         programs += p2
@@ -89,7 +88,7 @@ if __name__ == "__main__":
     root = os.path.dirname(os.path.dirname(os.path.abspath(__file__)))
     sys.path.insert(0, root)
     import verif
-    b = verif.build_harness(release=(payload.get("build") == "release"))
+    b = verif.build_harness(payload["property_workload"], release=(payload.get("build") == "release"))
     ops = "".join(l + "\n" for l in payload["ops"]).encode()
     e = dict(verif.ENV)
     e["EMLV_FLUSH"] = "1"
